@@ -28,6 +28,9 @@ CHECKS = {
     "C16": ("proof: Lean theorems on a buffered-file machine (disk/pending/position/O_APPEND) for the Logger/Trajectory/Restart op protocols at every cut and every crash image (log_after_call, log_crash_prefix, traj_after_call, traj_crash_prefix, restart_after_call, restart_crash_loadable_partial, restart_crash_window; restart_crash_loadable_false by witness = known finding), tied to the code by instrumented real files in GrandCanonical runs (protocol conformance, file semantics after every op, every op index as crash point)",
             "§6 C16", "Lean 4 induction over op sequences + instrumented-file correspondence and crash-image oracle (ase.io.read / read_json on real bytes)",
             "process-crash model: disk = visible bytes + a prefix of the user-space buffer; fsync/power loss out of scope; 'loadable' = image is a completed document (model) / read_json succeeds and matches a saved state (oracle)"),
+    "C13": ("proof: Lean theorems on the coded force-bias trial probability over the reals (= published Bal-Neyts density, 0<=P<=1, integral of P = 1 hence acceptance 1/2 per round, favours the force, mean (coth g - 1/g)/2 strictly increasing, |g|<=709.782712, |dx|<=delta(m_min/m)^p, loop termination for every accepting script, one set_positions) on a hand-written model of ForceBias.step, tied to the code by recorded-generator replay on prescribed forces",
+            "§6 C13", "Lean 4 + Mathlib interval integrals; differential correspondence (recorded PCG64 draws replayed in the Float model) + bound/termination/single-update oracles + KS search",
+            "numpy SIMD exp vs libm differ by 1 ulp: decisions within 2e-15(2+coth|g|) compared on gamma only; |g| at rounding level not tied; T in [1,1e4] K"),
 }
 
 NOT_APPLICABLE = {}
